@@ -7,6 +7,7 @@ package main
 //     loop, so every execution samples another schedule), each of which runs it
 //   * twice with fresh applications, the second time dropping the oracle's in-memory singletons
 //     after some commits (what a node restart does to non-persisted state),
+// plus once more with a restart exactly before the last block of every price window,
 // and every trace (per block: app hash, each ResponseDeliverTx{Code,Codespace,Data,GasUsed},
 // validator updates, consensus-param updates) is compared byte for byte.
 // Directed scenario F-08a: CheckTx of an oracle MsgUpdateParams on one instance only.
@@ -40,6 +41,52 @@ import (
 
 func init() { register("determinism", domDeterminism) }
 
+// restartAtWindowEnd as restartEvery: restart right before the last block of every price window
+const restartAtWindowEnd = -1
+
+type detRestart struct {
+	Index int    // first trace index executed after the restart
+	Class string // closed-round | open-round | no-round: state of the oracle rounds when the process stopped
+}
+
+// detRestartLog is filled by runDetSequence (reset by the caller)
+var detRestartLog []detRestart
+
+// roundClassAtRestart reads the "R:feeder:based,nextRound,status;…" part of the aggregator dump
+// (status 1 = open, 2 = closed).
+func roundClassAtRestart(dump string) string {
+	class := "no-round"
+	for _, part := range strings.Split(dump, "|") {
+		if !strings.HasPrefix(part, "R:") {
+			continue
+		}
+		for _, r := range strings.Split(strings.TrimPrefix(part, "R:"), ";") {
+			f := strings.Split(r, ",")
+			if len(f) < 3 {
+				continue
+			}
+			switch f[len(f)-1] {
+			case "2":
+				return "closed-round"
+			case "1":
+				class = "open-round"
+			}
+		}
+	}
+	return class
+}
+
+// restartSigAt classifies a divergence first seen at trace index i by the latest restart before it.
+func restartSigAt(log []detRestart, i int) string {
+	class := "before-any-restart"
+	for _, r := range log {
+		if r.Index <= i {
+			class = r.Class
+		}
+	}
+	return "nondeterminism:restart:" + class
+}
+
 // detTraceMemory (role=diag only): append the oracle's in-memory dump to every trace line
 var detTraceMemory bool
 
@@ -66,6 +113,27 @@ func runDetSequence(seed uint64, blocks int, restartEvery int, chainID string) (
 	for i := 0; i < 4; i++ {
 		stakers = append(stakers, NewActor(seed, "staker", i))
 		newOps = append(newOps, NewActor(seed, "newop", i))
+	}
+	// two stakers of operator[2] holding *different* assets of exactly the same USD value (0.3 USDT at
+	// price 1 and 0.001 of the 18-decimals asset at price 300), smaller than every other stake: their
+	// order at the end of any power-sorted list is a tie that only the iteration order of the AVS's asset
+	// map can break. operator[2] is exempt from the random slashes (a slash truncates per asset and would
+	// break the tie).
+	for i, spec := range []struct {
+		asset int
+		amt   sdkmath.Int
+	}{{0, sdkmath.NewIntWithDecimal(3, 5)}, {1, sdkmath.NewIntWithDecimal(1, 15)}} {
+		tie := NewActor(seed, "tie", i)
+		addr := common.HexToAddress(cfg.Assets[spec.asset].Addr).Bytes()
+		_ = c.CachedDo(func(ctx sdk.Context) error {
+			if err := c.App.AssetsKeeper.PerformDepositOrWithdraw(ctx, &assetskeeper.DepositWithdrawParams{
+				ClientChainLzID: c.LzID, Action: assetstypes.DepositLST, StakerAddress: tie.Eth.Bytes(), AssetsAddress: addr, OpAmount: spec.amt}); err != nil {
+				return err
+			}
+			return c.App.DelegationKeeper.DelegateTo(ctx, &delegationtypes.DelegationOrUndelegationParams{
+				ClientChainID: c.LzID, Action: assetstypes.DelegateTo, AssetsAddress: addr, OperatorAddress: c.Operators[2].Acc,
+				StakerAddress: tie.Eth.Bytes(), OpAmount: spec.amt, LzNonce: uint64(9000 + i), TxHash: common.BytesToHash(detBytes(seed, "tie", i))})
+		})
 	}
 	registered := map[int]bool{}
 	funded := map[int]bool{}
@@ -187,7 +255,7 @@ func runDetSequence(seed uint64, blocks int, restartEvery int, chainID string) (
 				txLines = append(txLines, fmt.Sprintf("k.deleg(%v):%s", undel, shortErr(e)))
 				continue
 			case 7: // keeper-level slash of a genesis operator (small fraction; it always has value)
-				op := c.Operators[rng.Intn(len(c.Operators))]
+				op := c.Operators[rng.Intn(len(c.Operators)-1)]
 				frac := sdk.NewDecWithPrec(int64(1+rng.Intn(5)), 2)
 				inf := stakingtypes.Infraction_INFRACTION_DOWNTIME
 				if rng.Bool() {
@@ -265,13 +333,28 @@ func runDetSequence(seed uint64, blocks int, restartEvery int, chainID string) (
 		}
 		line := fmt.Sprintf("h=%d app=%s %s tx=[%s]", c.Header.Height-1, hex.EncodeToString(r.AppHash), fmtEnd(r.End), strings.Join(txLines, " "))
 		if detTraceMemory {
+			for i := 0; i < 2; i++ {
+				t := NewActor(seed, "tie", i)
+				sid := StakerIDOf(c.LzID, t.Eth)
+				pw, perr := c.App.OperatorKeeper.CalculateUSDValueForStaker(c.Ctx, sid, c.AVSAddr, c.Operators[2].Acc.Bytes())
+				line += fmt.Sprintf(" tie%d[power=%v err=%v rewards=%s]", i, pw, perr, c.App.DistrKeeper.GetStakerRewards(c.Ctx, sid).Rewards)
+			}
 			id := func(s string) string { return s }
 			line += " mem=" + oraclekeeper.VerifDumpAgc(id) + "|" + oraclekeeper.VerifDumpCache(id)
 		}
 		trace = append(trace, line)
-		if restartEvery > 0 && (b+1)%restartEvery == 0 {
+		doRestart := restartEvery > 0 && (b+1)%restartEvery == 0
+		if restartEvery == restartAtWindowEnd {
+			// exactly between Commit(based+MaxNonce-1) and the block based+MaxNonce that closes a round's window
+			// (feeders start at block 1 with interval 10, MaxNonce 3: heights 4, 14, 24, …)
+			// … but not while a round is closed inside its window: that is the trigger of the known finding
+			// F-14b (the every-Nth schedule still meets it) and would mask anything else in this trace
+			doRestart = c.Header.Height%10 == 4 && roundClassAtRestart(oraclekeeper.VerifDumpAgc(func(s string) string { return s })) != "closed-round"
+		}
+		if doRestart {
 			// what a restart does to the oracle's non-persisted state; the next BeginBlock/tx/EndBlock
-			// rebuilds it from the store
+			// rebuilds it from the store. Remember what the rounds looked like when the process stopped.
+			detRestartLog = append(detRestartLog, detRestart{Index: b + 1, Class: roundClassAtRestart(oraclekeeper.VerifDumpAgc(func(s string) string { return s }))})
 			resetOracleSingletons()
 			warmOracle(c)
 		}
@@ -329,7 +412,20 @@ func domDeterminism(env *Env) error {
 	if role == "diag" { // developer aid: where does an emulated restart first become visible?
 		detTraceMemory = true
 		t1, _, _ := runDetSequence(seed, blocks, 0, "")
-		t3, _, _ := runDetSequence(seed, blocks, env.Int("restart", 7), "")
+		rs := env.Int("restart", 7)
+		if env.Str("schedule", "") == "window" {
+			rs = restartAtWindowEnd
+		}
+		detRestartLog = nil
+		t3, _, _ := runDetSequence(seed, blocks, rs, "")
+		fmt.Println("restarts:", detRestartLog)
+		if os.Getenv("DIAGALL") != "" {
+			for _, l := range t1 {
+				if i := strings.Index(l, " tie0["); i >= 0 {
+					fmt.Println(l[:6], l[i:strings.Index(l, " mem=")])
+				}
+			}
+		}
 		for i := range t1 {
 			if i < len(t3) && t1[i] != t3[i] {
 				fmt.Println("first difference at block index", i)
@@ -347,11 +443,13 @@ func domDeterminism(env *Env) error {
 		t1, _, _ := runDetSequence(seed, blocks, 0, "")
 		t2, _, _ := runDetSequence(seed, blocks, 0, "")
 		t3, _, _ := runDetSequence(seed, blocks, env.Int("restart", 7), "")
+		t4, _, _ := runDetSequence(seed, blocks, restartAtWindowEnd, "")
 		if err := writeLines(filepath.Join(env.Out, "trace1.txt"), t1); err != nil {
 			return err
 		}
 		writeLines(filepath.Join(env.Out, "trace2.txt"), t2)
 		writeLines(filepath.Join(env.Out, "trace3.txt"), t3)
+		writeLines(filepath.Join(env.Out, "trace4.txt"), t4)
 		return nil
 	}
 	procs := env.Int("procs", 3)
@@ -362,6 +460,18 @@ func domDeterminism(env *Env) error {
 		// the parent's own execution is the reference (and provides the statistics)
 		ref, st, halt := runDetSequence(sseed, blocks, 0, "")
 		env.Op(hist[0], "ok")
+		// the parent replays the two restart schedules itself to learn, for every emulated restart, what
+		// the oracle rounds looked like when the process "stopped" (used to classify a divergence)
+		detRestartLog = nil
+		runDetSequence(sseed, blocks, env.Int("restart", 7), "")
+		log3 := detRestartLog
+		detRestartLog = nil
+		runDetSequence(sseed, blocks, restartAtWindowEnd, "")
+		log4 := detRestartLog
+		detRestartLog = nil
+		for _, r := range append(append([]detRestart{}, log3...), log4...) {
+			env.Outcome("restart." + r.Class)
+		}
 		if halt != "" {
 			env.Violate("C08.halt", "halt:"+sigOfHalt(halt), "the determinism sequence halted block processing: "+halt, hist)
 		}
@@ -389,7 +499,7 @@ func domDeterminism(env *Env) error {
 			env.Op(op, l)
 		}
 		for p := 0; p < procs; p++ {
-			for _, tn := range []string{"trace1", "trace2", "trace3"} {
+			for _, tn := range []string{"trace1", "trace2", "trace3", "trace4"} {
 				t, err := readLines(filepath.Join(env.Out, fmt.Sprintf("child-%d-%d", hi, p), tn+".txt"))
 				if err != nil {
 					return err
@@ -398,11 +508,17 @@ func domDeterminism(env *Env) error {
 				if tn == "trace2" {
 					mon, sig = "C08.rerun", "nondeterminism:rerun"
 				}
-				if tn == "trace3" {
+				if tn == "trace3" || tn == "trace4" {
 					mon, sig = "C08.restart", "nondeterminism:restart"
 				}
 				env.Eval(mon)
 				if i := firstDiffLine(ref, t); i >= 0 {
+					if tn == "trace3" {
+						sig = restartSigAt(log3, i)
+					}
+					if tn == "trace4" {
+						sig = restartSigAt(log4, i)
+					}
 					a, bb := "<missing>", "<missing>"
 					if i < len(ref) {
 						a = ref[i]
@@ -617,6 +733,8 @@ func sigOfHalt(h string) string {
 		return "int64-out-of-bound"
 	case strings.Contains(h, "Int overflow"):
 		return "dec-overflow"
+	case strings.Contains(h, "negative coin amount"), strings.Contains(h, "negative decimal coin amount"):
+		return "negative-coin"
 	case strings.Contains(h, "division by zero"):
 		return "div-zero"
 	case strings.Contains(h, "unimplemented"):
